@@ -1013,13 +1013,15 @@ example : (Generated.Usize.ckSatAdd (some Generated.Usize.usizeMax) (some 1)).is
 /-- **max_line_length_total_or_overflow_witness.** Unconditionally, of the source as it is now: either both
 functions are total in a build with overflow checks (the repaired tree), or one of the three start-up panics found by
 C03 is there — `--wrap-max-lines 18446744073709551615` (`+ 1`), `--side-by-side --wrap-max-lines 100000000000000000`,
-`--side-by-side --width 9223372036854775807` (the multiplication). -/
+`--side-by-side --width 9223372036854775807` (the multiplication) — or, at least, the corner
+`(usize::MAX, usize::MAX, usize::MAX)` panics. -/
 theorem max_line_length_total_or_overflow_witness :
     ((∀ n mll w, (Generated.configMaxLineLengthChecked n mll w).isSome = true) ∧
       (∀ n, (Generated.wrapMaxLinesOfNumberChecked n).isSome = true)) ∨
     Generated.wrapMaxLinesOfNumberChecked 18446744073709551615 = none ∨
     Generated.configMaxLineLengthChecked 100000000000000001 3000 80 = none ∨
-    Generated.configMaxLineLengthChecked 3 3000 9223372036854775807 = none := by
+    Generated.configMaxLineLengthChecked 3 3000 9223372036854775807 = none ∨
+    Generated.configMaxLineLengthChecked Generated.Usize.usizeMax Generated.Usize.usizeMax Generated.Usize.usizeMax = none := by
   first
     | exact Or.inr (by decide)
     | refine Or.inl ⟨fun n mll w => ?_, fun n => ?_⟩
